@@ -10,7 +10,8 @@ from . import _auth
 
 ID = "C07"
 P = "Webauthn.Props.C07."
-THEOREMS = [P + n for n in ("guard_iff", "rule", "monotone", "no_replay", "ctr_lt", "rpStep_mono")]
+THEOREMS = [P + n for n in ("guard_iff", "rule", "monotone", "no_replay", "ctr_lt", "rpStep_mono",
+                              "accepted_gt_start", "accepted_strictly_increasing", "final_state")]
 LEAN_TARGETS = ["Props.C07"]
 SPEC_FILES = ["Spec/Core.lean"]
 ASSUMPTIONS = ["the counter guard used by the model is the Lean term regenerated from the source by harness/extract.py (T2)",
